@@ -207,6 +207,23 @@ impl Expr {
         }
     }
 
+    /// Whether an assignable path reaches its target through a value of module type
+    /// (`m.x`, `alias_of_m.x`, `m.obj.f`).
+    fn path_goes_through_module(
+        &self,
+        flags: &TypecheckFlags<impl Deref<Target = ClassType> + Debug>,
+    ) -> bool {
+        match self {
+            Expr::DotLookup { lhs, .. } => {
+                lhs.for_type(flags).is_ok_and(|ty| {
+                    matches!(ty.disregard_distractors(false), TypeLayout::Module(..))
+                }) || lhs.path_goes_through_module(flags)
+            }
+            Expr::Index { lhs_raw, .. } => lhs_raw.path_goes_through_module(flags),
+            _ => false,
+        }
+    }
+
     pub(crate) fn validate(
         &self,
         flags: &TypecheckFlags<impl Deref<Target = ClassType> + Debug>,
@@ -241,6 +258,10 @@ impl Expr {
                                 root.name()
                             )
                         }
+                    }
+
+                    if lhs.path_goes_through_module(flags) {
+                        bail!("cannot reassign using {op} to a member of a module from outside of it")
                     }
                 }
 
